@@ -142,13 +142,6 @@ def _portfolio(s, timeout_ms):
     if r in ("sat", "unsat"):
         PORTFOLIO_STATS["default"] = PORTFOLIO_STATS.get("default", 0) + 1
         return r, (s.model() if r == "sat" else None)
-    # 1b counterexample guessing: pin (most of) the harness inputs to random rationals inside
-    # their hint ranges and let the solver decide the much smaller instance.  `sat` of the
-    # pinned instance is `sat` of the query (sound); anything else says nothing.
-    m = _guess_model(s, timeout_ms)
-    if m is not None:
-        PORTFOLIO_STATS["guessed"] = PORTFOLIO_STATS.get("guessed", 0) + 1
-        return "sat", m
     # 2 tactic pipeline
     try:
         t = z3.Then("simplify", "solve-eqs", "purify-arith", "qfnra-nlsat")
@@ -161,6 +154,13 @@ def _portfolio(s, timeout_ms):
             return r, (s2.model() if r == "sat" else None)
     except z3.Z3Exception:
         pass
+    # 1b counterexample guessing: pin (most of) the harness inputs to random rationals inside
+    # their hint ranges and let the solver decide the much smaller instance.  `sat` of the
+    # pinned instance is `sat` of the query (sound); anything else says nothing.
+    m = _guess_model(s, timeout_ms)
+    if m is not None:
+        PORTFOLIO_STATS["guessed"] = PORTFOLIO_STATS.get("guessed", 0) + 1
+        return "sat", m
     # 3 re-parsed in a fresh context (different term ids / variable order)
     try:
         ctx = z3.Context()
